@@ -315,7 +315,16 @@ class Normalizer:
                 calls = []
 
                 def collect(e):
+                    """calls this statement evaluates UNCONDITIONALLY and exactly once: nothing inside lambdas / comprehensions,
+                    nor in the branches of a conditional expression, nor in the later operands of and / or (hoisting those in
+                    front of the statement would move them out of their guard)"""
                     if isinstance(e, (ast.Lambda, ast.ListComp, ast.SetComp, ast.DictComp, ast.GeneratorExp)):
+                        return
+                    if isinstance(e, ast.IfExp):
+                        collect(e.test)
+                        return
+                    if isinstance(e, ast.BoolOp):
+                        collect(e.values[0])
                         return
                     for c in ast.iter_child_nodes(e):
                         collect(c)
